@@ -56,6 +56,23 @@ out.append("Each sub-agent was given only the text of one property and a scratch
            "a demonstration program. Every change kept here was confirmed independently (`tools/confirm_seed.sh`: fresh\n"
            "worktree, demo exits 0 on the clean tree, non-zero on the patched tree, suite passes on the patched tree) and then\n"
            "run against the registered quick check (`tools/run_seed.sh`, seed 1).\n")
+metas = []
+for d in sorted(glob.glob(os.path.join(V, "seeded", "*"))):
+    mp = os.path.join(d, "meta.json")
+    if os.path.exists(mp):
+        metas.append(json.load(open(mp)))
+n_all = len(metas)
+n_yes = sum(1 for m in metas if str(m.get("detected_by_check", "")).startswith("yes"))
+n_first = sum(1 for m in metas if "issed" in m.get("needs_to_manifest", "") and str(m.get("detected_by_check", "")).startswith("yes"))
+out.append("The changes were requested in ten rounds, each with a different steer for where to hide the change: (1-2) free\n"
+           "choice within the property; (3) a second, different mechanism; (4) less-travelled entry points, overloads and option\n"
+           "combinations; (5) size- or count-dependent behaviour; (6) parameter extremes and exact numeric coincidences;\n"
+           "(7) code compiled under one build configuration only; (8) free choice outside the list of ideas already used;\n"
+           "(9) shared low-level helpers; (10) adversarial against a capable property-based tester. Two proposals were\n"
+           "discarded as duplicates of stored changes (the same edit offered again). Of the %d stored changes, %d are detected\n"
+           "by the quick check of their property; %d of those were missed when they arrived and are detected since the check\n"
+           "was strengthened (the table says how, and section 5.0 lists the generator classes and routes this produced);\n"
+           "the remaining %d are not detected, for the reasons given in the table (outside the property as stated).\n" % (n_all, n_yes, n_first, n_all - n_yes))
 out.append("| seeded change | property | what it needs to manifest | detected by the quick check |")
 out.append("|---|---|---|---|")
 for d in sorted(glob.glob(os.path.join(V, "seeded", "*"))):
